@@ -169,7 +169,7 @@ func runC17(in *Sx) *Sx {
 
 func genC17(rng *rand.Rand, n int, tier string, emit func(*Sx)) {
 	strs := []string{"", "a", "hello world", "<&>\"'", "é☃", "line\nbreak", "\t", "{}[]", "100%", "%s %d%%", "x\x00y"}
-	codes := []int{200, 201, 202, 400, 404, 418, 500, 503, 299, 599, 700} // also codes net/http has no text for
+	codes := []int{200, 201, 202, 400, 404, 418, 500, 503, 299, 599, 700, 204, 304} // also codes net/http has no text for
 	for i := 0; i < n; i++ {
 		var reqs []*Sx
 		for k := 1 + rng.Intn(3); k > 0; k-- {
@@ -198,7 +198,7 @@ func genC17(rng *rand.Rand, n int, tier string, emit func(*Sx)) {
 				reqs = append(reqs, T("req", A("text"), I(status), X(strs[rng.Intn(len(strs))])))
 			}
 		}
-		emit(T("in", T("charset", X([]string{"", "", "utf-8", "iso-8859-1", "gbk"}[rng.Intn(5)])), T("jindent", X([]string{"", "", "  ", "\t"}[rng.Intn(4)])),
+		emit(T("in", T("charset", X([]string{"", "", "utf-8", "iso-8859-1", "gbk", "UTF-8", "Shift_JIS"}[rng.Intn(7)])), T("jindent", X([]string{"", "", "  ", "\t"}[rng.Intn(4)])),
 			T("xindent", X([]string{"", "", "  ", "\t"}[rng.Intn(4)])), T("early", B(rng.Intn(12) == 0)), T("nested", B(rng.Intn(3) == 0)), T("prect", B(rng.Intn(4) == 0)), T("reqs", reqs...)))
 	}
 }
